@@ -15,6 +15,8 @@ def setup() -> int:
     """Regenerate every Gen table from /repo, build the whole Coq development, scan for forbidden vernacular."""
     from harness import gen_tables
     gen_tables.generate_all()
+    from harness import py2coq      # Gen/Src.v: definitions translated from the source TEXT (fail closed), see Props/SrcTie.v
+    py2coq.generate()
     # per-property generators of regenerated Coq files: harness/cXX_gen.py exposing generate()
     import glob
     for f in sorted(glob.glob(str(vlib.VERIF / "harness" / "c[0-9][0-9]_gen.py"))):
